@@ -9,6 +9,7 @@ mod cmd_lookup;
 mod cmd_record;
 mod cmd_compare;
 mod cmd_linkage;
+mod cmd_setmeta;
 #[cfg(hpo_verif)]
 mod cmd_algo;
 mod enc;
@@ -37,6 +38,7 @@ fn main() {
         "record" => cmd_record::run(&args),
         "replay-compare" => cmd_compare::run(&args),
         "replay-linkage" => cmd_linkage::run(&args),
+        "replay-setmeta" => cmd_setmeta::run(&args),
         #[cfg(hpo_verif)]
         "record-algo" => cmd_algo::run(&args),
         "debug-mismatch" => cmd_binary::debug_mismatch(&args),
